@@ -97,6 +97,24 @@ theorem idempotent_full_refuted :
   revert h2
   decide
 
+/-- … and (K12B) so do fused complemented members, without any top-level `Joined`: the two equal
+members `complement(join(2..3,<4..6,<7..7))` are fused, the inner `Join` (always with `force`) turns
+their parts into `2..7`, and `complement(join(2..7,2..7))` is written back in front of `2..>4` although
+it now sorts behind it; the second `Repair` sorts it next to the third complemented member,
+`complement(3.4)`, and fuses again (3 features, then 2). -/
+theorem idempotent_compl_refuted :
+    ¬ (∀ t t' : Table, repair t = .ok t' → repair t' = .ok t') := by
+  intro h
+  have h1 := h [gene (compl (joined [ranged 1 3 false false, ranged 3 6 true false, ranged 6 7 true false])),
+      gene (ranged 1 4 false true),
+      gene (compl (joined [ranged 1 3 false false, ranged 3 6 true false, ranged 6 7 true false])),
+      gene (compl (ambiguous 2 3))]
+    [gene (compl (joined [ranged 1 7 false false, ranged 1 7 false false])), gene (ranged 1 4 false true),
+      gene (compl (ambiguous 2 3))] (by rfl)
+  have h2 := congrArg (fun (o : RepairOutcome) => match o with | RepairOutcome.ok t => t.length | _ => 0) h1
+  revert h2
+  decide
+
 /-- **Idempotent** on plain tables of well-formed locations. -/
 theorem idempotent_partial (t t' : Table) (hp : Table.plain t = true) (hw : Table.wfT t = true)
     (h : repair t = .ok t') : repair t' = .ok t' := by
